@@ -966,7 +966,11 @@ class LangServer:
         # Search through all files
         def_name: str = def_obj.name.lower()
         def_fqsn: str = def_obj.FQSN
-        NAME_REGEX = re.compile(rf"(?:\W|^)({def_name})(?:\W|$)", re.I)
+        # Look-arounds instead of consuming the separators, so that the second name
+        # in "i+i" or "a%a" is found too; the name is literal text ($ is legal in names)
+        NAME_REGEX = re.compile(
+            rf"(?<![\w$])({re.escape(def_name)})(?![\w$])", re.I
+        )
         if file_obj is None:
             file_set = self.workspace.items()
         else:
